@@ -1270,28 +1270,65 @@ def rule_H1(repo: Repo) -> RuleResult:
                             "counting from the end requires both the reversed scan and n := -n - 1 in the same arm")
     if arm_ok:
         res.ok(f, f.node, "_find_nth: negative n scans backwards with n := -n - 1", "")
-    # ---- _find_first_or_last_n
-    g = nb.func("_find_first_or_last_n")
-    roles = infer_roles(g)
+    # ---- _find_first_or_last_n   (analysed with the locals that name one cell replaced by the cell: j = seen[k])
+    from .canon import inline_cell_reads
+    g0 = nb.func("_find_first_or_last_n")
+    roles = infer_roles(g0)
+    g = inline_cell_reads(g0, skip=set(roles.code_vars))
     loop = [l for l in walk_no_nested(g.node) if isinstance(l, ast.For)][-1]
     npar = g.named_params[2]
     found = 0
-    for st in ast.walk(loop):
-        if isinstance(st, ast.Assign) and isinstance(st.targets[0], ast.Subscript) and isinstance(st.targets[0].slice, ast.Tuple) \
-                and len(st.targets[0].slice.elts) == 2 and base_name(st.targets[0]) not in g.named_params:
-            found += 1
-            slot = st.targets[0].slice.elts[1]
-            guards = _enclosing_tests_of(loop, st)
-            ok_guard = any(isinstance(t, ast.Compare) and len(t.ops) == 1 and isinstance(t.ops[0], ast.Lt) and norm(t.left) == norm(slot)
-                           and isinstance(t.comparators[0], ast.Name) and t.comparators[0].id == npar for t in guards)
-            # slot = counter[k] read before the increment
-            slot_def = [s_ for s_ in loop.body if isinstance(s_, ast.Assign) and len(s_.targets) == 1 and norm(s_.targets[0]) == norm(slot)
-                        and isinstance(s_.value, ast.Subscript) and base_name(s_.value) in roles.per_group_arrays]
-            if ok_guard and slot_def:
-                res.ok(g, st, f"_find_first_or_last_n: {norm(st)} under {norm(slot)} < {npar}", "slot = occurrences seen so far")
-            else:
-                res.bad(g, st, f"_find_first_or_last_n: {norm(st)}",
-                        f"a row must be stored at slot = (occurrences of its group seen so far) and only while that slot is < {npar}")
+    g_mask = {p_ for p_ in g.named_params if p_ == "mask"}
+    g_alias = _mask_aliases(g, g_mask)
+    for p in enumerate_paths(loop.body, split_bool=True):
+        if p.exit not in ("fall", "continue"):
+            continue
+        stores = [st for st in p.stmts if isinstance(st, ast.Assign) and isinstance(st.targets[0], ast.Subscript)
+                  and isinstance(st.targets[0].slice, ast.Tuple) and len(st.targets[0].slice.elts) == 2
+                  and base_name(st.targets[0]) not in g.named_params]
+        incs = [st for st in p.stmts if isinstance(st, ast.AugAssign) and isinstance(st.target, ast.Subscript)
+                and base_name(st.target) in roles.per_group_arrays]
+        null_key = any(pol is True and isinstance(t, ast.Compare) and len(t.ops) == 1 and isinstance(t.ops[0], ast.Lt)
+                       and const_int(t.comparators[0]) == 0 for t, pol in p.conds)
+        rejected = null_key or (g_mask and _selection_of_path(p, g_mask, g_alias) == "unselected")
+        desc = p.describe()[:80]
+        if rejected:
+            for st in stores + incs:
+                res.bad(g, st, f"_find_first_or_last_n: {norm(st)} on {desc}", "a row with a null key or outside the mask is neither stored nor counted",
+                        path=p.describe())
+            continue
+        if not stores:
+            if incs:
+                pass        # counting beyond n is harmless (the slot test fails from then on)
+            continue
+        found += 1
+        st = stores[0]
+        if g_mask and _selection_of_path(p, g_mask, g_alias) != "selected":
+            res.bad(g, st, f"_find_first_or_last_n: {norm(st)} on {desc}",
+                    "the row is stored on a path that did not establish that the mask selects it (mask given and mask[row] false is possible here)",
+                    path=p.describe())
+            continue
+        slot = st.targets[0].slice.elts[1]
+        cnt = base_name(slot) if isinstance(slot, ast.Subscript) else None
+        ok_slot = cnt in roles.per_group_arrays
+        ok_guard = any(pol is True and isinstance(t, ast.Compare) and len(t.ops) == 1 and isinstance(t.ops[0], ast.Lt)
+                       and norm(t.left) == norm(slot) and isinstance(t.comparators[0], ast.Name) and t.comparators[0].id == npar
+                       for t, pol in p.conds) \
+            or any(pol is False and isinstance(t, ast.Compare) and len(t.ops) == 1 and isinstance(t.ops[0], ast.GtE)
+                   and norm(t.left) == norm(slot) and isinstance(t.comparators[0], ast.Name) and t.comparators[0].id == npar
+                   for t, pol in p.conds)
+        my_incs = [x for x in incs if base_name(x.target) == cnt and isinstance(x.op, ast.Add) and const_int(x.value) == 1]
+        ok_inc = len(stores) == 1 and len(my_incs) == 1 and p.stmts.index(my_incs[0]) > p.stmts.index(st)
+        if ok_slot and ok_guard and ok_inc:
+            res.ok(g, st, f"_find_first_or_last_n: {norm(st)} under {norm(slot)} < {npar}; {norm(my_incs[0])} on {desc}",
+                   "slot = occurrences seen so far; the counter advances once after the store")
+        elif not (ok_slot and ok_guard):
+            res.bad(g, st, f"_find_first_or_last_n: {norm(st)} on {desc}",
+                    f"a row must be stored at slot = (occurrences of its group seen so far) and only while that slot is < {npar}", path=p.describe())
+        else:
+            res.bad(g, st, f"_find_first_or_last_n: {len(my_incs)} counter increment(s) after {norm(st)} on {desc}",
+                    "after a row is stored the group's occurrence counter must advance by exactly one (after the store): otherwise the next "
+                    "row of the group overwrites this slot or leaves a gap", path=p.describe())
     if found < 1:
         raise AnalysisError("H1: slot store of _find_first_or_last_n not found")
     seen, uniq = set(), []
